@@ -369,6 +369,7 @@ CHECKS["C16"] = {
         {"name": "ris-plain", "leg": "ris", "build": "plain", "shards": 16, "args": ["profile=plain"]},
         {"name": "ris-asan", "leg": "ris", "build": "asan", "shards": 16, "tiers": ["thorough"], "args": ["profile=asan"],
          "env": {"ASAN_OPTIONS": "halt_on_error=1:abort_on_error=1:detect_leaks=0:allocator_may_return_null=1"}},
+        {"name": "miri", "runner": "miri", "miri_seeds": 1, "tiers": ["thorough"]},
     ],
     "rule": "one case = one hostile input: byte strings into from_bytes / serde (random, truncated, wrong tag, 1 MiB, 2^16 rounds, lying length prefix); every proof shape (degree 1..6 x rounds 1..70, 31..33, 63..65, 128, 255, 2^12, 2^16) "
             "against 8 statement shapes x degree 1..6 x promise/seed/mode variants; identity, undecodable and non-canonical points and zero scalars at every position of honest proofs; batch shapes with mismatched sequence lengths, "
